@@ -60,9 +60,7 @@ def check(chk):
               'WHERE keys: partition keys if static_only else all primary keys', 'key selection changed')
     up = q.func('DMLQuery.update')
     su = src(up)
-    chk.judge('static_changed_only = static_changed_only and col.static' in su and 'static_changed_only = True' in su, 'C35.static', up, 'update(): static_changed_only and-accumulated', 'static_changed_only accumulation changed')
-    chk.judge('(null_clustering_key or static_changed_only) and (not col.partition_key)' in su, 'C35.static', up, 'update(): clustering keys skipped only when null or only static columns changed', 'clustering key selection in update changed')
-    chk.judge('null_clustering_key = null_clustering_key and col._val_is_null(getattr(self.instance, name, None))' in su, 'C35.static', up, 'null clustering key = every clustering column null', 'null clustering key computation changed')
+    _update_flags(chk, up)
     # names
     for n in body_walk(dn):
         if isinstance(n, ast.Call) and src(n.func) == 'ds.add_field' and n.args:
@@ -200,3 +198,82 @@ def _under_copy(node, root):
             break
         p = parent(p)
     return False
+
+
+def _update_flags(chk, up):
+    """update(): the two sticky flags and the WHERE selection they drive, by dataflow (whatever statements express them)"""
+    from .. import sem
+    from ..fold import Folder, Unfoldable
+    g, fl = sem.flow_of(up)
+
+    def loop_of(n):
+        from ..core import enclosing
+        return enclosing(n.ast, ast.For)
+    # --- static_changed_only: starts True, and-accumulates col.static for every column that is added to the UPDATE
+    inits, accs, others = sem.and_flag(up, 'static_changed_only', g, fl)
+    ok = len(inits) == 1 and src(inits[0].ast.value) == 'True' and not others and bool(accs) and all(t == 'col.static' for _n, t in accs) and loop_of(inits[0]) is None
+    chk.judge(ok, 'C35.static', up, 'update(): static_changed_only starts True and is and-accumulated with col.static',
+              'static_changed_only is not `True and col.static and ...` over the updated columns (starts: %s; accumulates: %s; other writes: %s): after a non-static column was seen the flag '
+              'can be true again and the UPDATE omits the clustering key' % ([src(n.ast) for n in inits], [t for _n, t in accs], [src(n.ast)[:50] for n in others]))
+    adds = [n for n in g.stmt_nodes() if n.kind == 'stmt' and any(isinstance(c, ast.Call) and src(c.func) == 'statement.add_update' for c in ast.walk(n.ast))]
+    if not adds:
+        raise AnalysisError('DMLQuery.update: statement.add_update not found')
+    acc_ids = set(n.id for n, _t in accs)
+    from ..cfg import Flow
+
+    def step_acc(n, c):
+        if n.kind == 'for_iter':
+            return 'no'
+        return 'yes' if n.id in acc_ids else c
+    fa_ = Flow(g, 'no', step_acc)
+    for ad in adds:
+        okp = loop_of(ad) is not None and all(c == 'yes' or f_.knows('static_changed_only') is False for f_, c in fa_.at(ad))
+        chk.judge(okp, 'C35.static', ad.ast, 'every column added to the UPDATE takes part in static_changed_only (or the flag is already false)',
+                  'a column reaches add_update on a path of the iteration that does not and-accumulate col.static: a changed non-static column leaves the flag True and the clustering key out of WHERE')
+    # --- null_clustering_key: there is a clustering key and every clustering column is null
+    inits, accs, others = sem.and_flag(up, 'null_clustering_key', g, fl)
+    okn = len(inits) == 1 and not others and bool(accs) and all(t == 'col._val_is_null(getattr(self.instance, name, None))' for _n, t in accs)
+    if okn:
+        # the starting value as a function of the number of clustering keys: False for none, True otherwise
+        class L(ast.NodeTransformer):
+            def visit_Call(s_, n):
+                if src(n) == 'len(self.instance._clustering_keys)':
+                    return ast.Name(id='_n', ctx=ast.Load())
+                return s_.generic_visit(n)
+
+            def visit_Attribute(s_, n):
+                if src(n) == 'self.instance._clustering_keys':
+                    return ast.Name(id='_ck', ctx=ast.Load())
+                return n
+        import copy
+        e = L().visit(copy.deepcopy(inits[0].ast.value))
+        fo = Folder(chk.repo.mod(Q))
+        try:
+            vals = [bool(fo.eval(e, env={'_n': k, '_ck': (None,) * k})) for k in (0, 1, 2, 5)]
+        except Unfoldable as ex:
+            raise AnalysisError('DMLQuery.update: starting value of null_clustering_key not understood (%s): %s' % (src(inits[0].ast.value), ex))
+        okn = vals == [False, True, True, True]
+    for n, _t in accs:
+        lp = loop_of(n)
+        okn = okn and lp is not None and src(lp.iter) == 'self.instance._clustering_keys.items()' and src(lp.target).replace('(', '').replace(')', '') == 'name, col'
+    chk.judge(okn, 'C35.static', up, 'update(): null_clustering_key = (there are clustering keys) and every clustering column is null',
+              'null clustering key computation changed (starts: %s; accumulates: %s; other writes: %s)' % ([src(n.ast) for n in inits], [t for _n, t in accs], [src(n.ast)[:50] for n in others]))
+    # --- WHERE: partition keys always; clustering keys unless the clustering key is null or only static columns changed
+    wh = [n for n in g.stmt_nodes() if n.kind == 'stmt' and any(isinstance(c, ast.Call) and src(c.func) == 'statement.add_where' for c in ast.walk(n.ast))]
+    if len(wh) != 1:
+        raise AnalysisError('DMLQuery.update: statement.add_where: %d sites' % len(wh))
+    lp = loop_of(wh[0])
+    okw = lp is not None and src(lp.iter) == 'self.model._primary_keys.items()'
+    if okw:
+        for fa, _c in fl.at(wh[0]):
+            pk = fa.value('col.partition_key')
+            okw = okw and (pk is True or (fa.value('null_clustering_key') is False and fa.value('static_changed_only') is False))
+        # and the converse: an iteration that does not add the column is one of a clustering column under (null key or static only)
+        heads = [n for n in g.nodes if n.kind == 'for_iter' and n.ast is lp]
+        skips = [n for n in g.stmt_nodes() if n.kind == 'stmt' and isinstance(n.ast, ast.Continue) and loop_of(n) is lp]
+        for sk in skips:
+            for fa, _c in fl.at(sk):
+                okw = okw and fa.value('col.partition_key') is False and fa.value('null_clustering_key or static_changed_only') is True
+        okw = okw and len(heads) == 1
+    chk.judge(okw, 'C35.static', wh[0].ast, 'update(): WHERE takes every partition key, and the clustering keys unless the clustering key is null or only static columns changed',
+              'clustering key selection in update changed')
